@@ -1281,8 +1281,8 @@ def run(ctx):
     ctx.hist("enumerated-values", sum(len(c["new"]) - 1 for c in en))
     for i in range(0, len(en), 600):
         evaluate(ctx, en[i:i + 600])
-    budget = [("emit", ctx.n(2400, 60000)), ("acts", ctx.n(1200, 30000)), ("shell", ctx.n(3000, 100000)), ("shellf", ctx.n(1500, 60000)),
-              ("stack", ctx.n(200, 4000))]
+    budget = [("emit", ctx.n(2400, 60000)), ("stack", ctx.n(160, 4000)), ("acts", ctx.n(800, 30000)),
+              ("shellf", ctx.n(1200, 60000)), ("shell", ctx.n(2000, 100000))]
     for kind, n in budget:
         done = 0
         batch = 600 if kind != "stack" else 48
